@@ -201,7 +201,8 @@ theorem setNameAndType_plain (n d : Str) (typ : Option Str) (hn : NameOK n) (hd 
     cases d with
     | nil => exact absurd rfl hd.ne
     | cons _ _ => rfl
-  have hjoin : stripRight pyWs (joinWith [' '] ((splitOnChar '\n' d).map (strip pyWs))) = d := by
+  have hjoin : unwrapProse d = d := by
+    unfold unwrapProse
     rw [splitOnChar_no_sep '\n' d hd.oneLine]
     simp only [List.map_cons, List.map_nil, joinWith_single]
     rw [strip_trimmed d hd.trimmed hd.ne, stripRight_trimmed d hd.trimmed]
